@@ -337,7 +337,7 @@ def pairs_euler1d(ctx, rng, idx):
         for i in range(3):
             a_, b_ = np.broadcast_to(np.asarray(Fm[i], float), (n,)), np.asarray(Ff[i], float)
             ok = np.isfinite(b_)
-            ctx.close("euler-scalar-call", float(np.max(np.abs(a_ - b_)[ok] / (np.abs(b_[ok]) + np.max(np.abs(b_[ok])) * 1e-6 + 1e-300))) if np.any(ok) else 0.0, 1e-12,
+            ctx.close("euler-scalar-call", float(np.max(np.abs(a_ - b_)[ok] / (np.abs(b_[ok]) + np.max(np.abs(b_[ok])) * 1e-6 + 1e-300))) if np.any(ok) else 0.0, 1e-10,
                       "euler-%s/one-state-against-an-array-differs-from-full-arrays" % ("hllc" if flux is None else flux), {"eq": i, "scalar side": "left" if side == 0 else "right", "type": cast.__name__}, cls="scalar-calls")
     except (AttributeError, TypeError, ValueError) as e:
         ctx.skip("mixed-scalar-array:refused(%s)" % type(e).__name__)
